@@ -234,13 +234,16 @@ def replay_state(yaml, pkgdir, st, nrep, tier, res, bag):
             key = re.sub(r'[\[(\'"].*', '', d)[:50]
             res['drift'].setdefault(key, {'symbols': syms, 'text': text[:80], 'what': d[:300]})
         # first representative: str / bytes / text stream x scan, parse, compose_all; further ones: the other delivery forms
+        # quick: 16 runs per input: str x three entry points and a byte stream with short reads for the first representative;
+        # a text stream with short reads and UTF-16 for the second.  (bytes and whole-read streams: corpus phase, thorough tier)
         if k == 0:
             obs = observe(yaml, pkgdir, text, None, only_forms=('str',))
-            obs += observe(yaml, pkgdir, text, None, only_forms=('bytes', 'stream-str'), entries=('scan', 'compose_all'))
+            obs += observe(yaml, pkgdir, text, None, rnd=rnd, kmax=3, entries=('scan', 'compose_all'),
+                           only_forms=('short-bytes',) if tier == 'quick' else ('short-bytes', 'bytes', 'stream-str'))
         else:
-            # streams with short reads (1..3 units: a chunk boundary inside every token of these short inputs), UTF-16
-            obs = observe(yaml, pkgdir, text, None, extra_forms=True, rnd=rnd, kmax=3, entries=('scan', 'compose_all'),
-                          only_forms=('short-str', 'short-bytes', 'short-bytes-utf-16-le', 'short-bytes-utf-16-be'))
+            obs = observe(yaml, pkgdir, text, None, rnd=rnd, kmax=3, entries=('scan', 'compose_all'), only_forms=('short-str',))
+            obs += observe(yaml, pkgdir, text, None, extra_forms=True, rnd=rnd, kmax=3, entries=('scan',) if tier == 'quick' else ('scan', 'compose_all'),
+                           only_forms=('short-bytes-utf-16-le', 'short-bytes-utf-16-be'))
         res['runs'] += len(obs)
         short = text if len(text) <= 60 else text[:60] + '...(%d)' % len(text)
         for rec, meta in obs:
@@ -301,7 +304,7 @@ def corpus_items(tier, rnd):
     files = sorted(glob.glob(os.path.join(REPO, 'tests/legacy_tests/data/*')))
     muts = mutation_symbols()
     items = []
-    nmut = 4 if tier == 'quick' else 60
+    nmut = 3 if tier == 'quick' else 60
     badunits = [b'\xff', b'\xc3', b'\x80', b'\xed\xa0\x80', b'\xf8\x88\x80\x80\x80', b'\x00', b'\xef\xbb\xbf', b'\xff\xfe', b'\xfe\xff',
                 b'\x00\xd8', b'\xc0\xaf', b'\xf4\x90\x80\x80', b'\xe2\x82']
     for f in files:
